@@ -199,6 +199,10 @@ def dpg_sac_cases(chk, rng, n):
         recs.append(("sac_actor", case2, float(sl)))
         # temperature: first step direction through the real update
         target = float(rng.choice([-1.0, 0.5, 2.0]))
+        if i % 3 == 2:      # a sharply peaked policy (log pi around 6) with the target entropy of a 2-4 dimensional action space
+            pol.lp_net.output_layer.bias.value = pol.lp_net.output_layer.bias.value + 6.0
+            lp = np.asarray(pol.log_probability(o, acts), dtype=float)
+            target = float(rng.choice([-2.0, -3.0, -4.0]))
         la = sac.EntropyCoefficient(jnp.zeros(1))
         opt = nnx.Optimizer(la, optax.sgd(0.1), wrt=nnx.Param)
         before = float(np.asarray(la.log_alpha.value)[0])
